@@ -155,6 +155,36 @@ def r38(F):
                "the result of a call carries the position of the call" if not from_result else
                "the result of a call keeps the position it had inside the callee: a later type error on it is reported in the "
                "statement that defines the function")
+    # ... and so is the value a functional operator produces: the push a hook can return from without calling back again is its
+    # result, and its position is not one that came back from a callback (pushes that feed the next callback may carry one)
+    for n in sorted({n_ for n_, b_ in sites if n_.startswith("ucglib::build::opcode::runtime::") and "{closure" not in n_}):
+        fn = F.fn(n)
+        fblocks = {b_ for b_, t_ in fn.calls() if callee(t_) == FCALL or callee(t_) in fw}
+        exits = set(cfg.exits(fn))
+        k_ = 0
+        for b, t in fn.calls():
+            c = callee(t)
+            if not (c.endswith("Vec::push") or (c.endswith("::push") and "Vec<" in c)) or len(t["args"]) < 2:
+                continue
+            recv = op_place(t["args"][0])
+            rty = fn.local_ty(recv["l"]).replace(" ", "") if recv is not None else ""
+            if "Vec<(alloc::rc::Rc<ucglib::build::opcode::Value>,ucglib::ast::Position)>" not in rty:
+                continue        # not the operand stack
+            if not (cfg.reachable(fn, t.get("t", b), removed=fblocks) & exits):
+                continue        # feeds a later callback
+            el = op_local(t["args"][1])
+            posops = [rv["ops"][1] for b2, j2, pl2, rv, m2 in fn.assigns() if pl2["l"] == el and not pl2["p"] and rv["k"] == "agg" and len(rv.get("ops", ())) == 2]
+            if not posops:
+                continue
+            src = set()
+            for po in posops:
+                src |= util.source_calls(fn, po, pass_through=util.PASS_THROUGH + ("::branch",))
+            from_result = any(c_[0] == FCALL or c_[0] in fw for c_ in src if c_[0] != "param")
+            r.inst("%s:result-position#%d" % (n.split("::")[-1], k_), fn.where(b), not from_result,
+                   "the operator's result carries a position of the operator expression" if not from_result else
+                   "the result keeps a position that came back from the callback: a later fault on it is reported inside the "
+                   "function that was called, not at the statement that uses the result")
+            k_ += 1
     oc = F.fn(VM + "op_copy")
     runs = [(b, t) for b, t in oc.calls() if callee(t) == VM + "run"]
     pcs = {bb for bb, tt in oc.calls() if callee(tt).endswith("Error::push_call_stack")}
